@@ -36,7 +36,7 @@ func runC14(env *Env, rc *RunCtx) {
 		runC14Race(env, rc)
 		return
 	}
-	if rc.Mode == "handlers" {
+	if rc.Mode == "handlers" || rc.Mode == "statements" {
 		runC14Handlers(env, rc)
 		return
 	}
@@ -532,6 +532,34 @@ func runC14Handlers(env *Env, rc *RunCtx) {
 		rc.Count("probe_depth_decides", 1)
 	}
 	rc.Rec.CaseHash = fmt.Sprintf("%016x", fnv64(fmt.Sprint(store, hs), 0))
+	// mode statements: every SQL statement is a scheduling point as well (the
+	// requests interleave inside one storage call, e.g. between the relationship
+	// query and the name lookups of a listing), and in half of the runs an earlier
+	// client has failed first: one list / expand request meets a storage fault at
+	// one of its SQL statements before the concurrent phase starts. What a failed
+	// request leaves behind in the process must not reach the others.
+	stmts := rc.Mode == "statements"
+	if stmts && t.Bool(1, 2) {
+		victims := []hreq{{desc: "GET list N0", method: "GET", target: "/relation-tuples?" + url.Values{"namespace": {"N0"}}.Encode()},
+			{desc: "GET expand chain", method: "GET", target: "/relation-tuples/expand?" + url.Values{"namespace": {"N0"}, "object": {"chain"}, "relation": {"r0"}, "max-depth": {"5"}}.Encode()}}
+		vh := victims[t.Choose(len(victims))]
+		p0 := NoFaults()
+		p0.CountSQL = true
+		cnt := env.Exec(NewTape(Mix(rc.execSeed, 557)), []*Request{mk(vh)}, p0)
+		rc.Rec.Execs++
+		if M := cnt.L2Statements; M > 0 {
+			pf := NoFaults()
+			pf.L2At = 1 + t.Choose(M)
+			pf.L2Kind = []L2Fault{L2IO, L2Ctx, L2Busy}[t.Choose(3)]
+			fr := env.Exec(NewTape(Mix(rc.execSeed, 558)), []*Request{mk(vh)}, pf)
+			theHub.Heal()
+			rc.Rec.Execs++
+			if fr.L2Fired > 0 {
+				rc.Count("probe_earlier_request_failed", 1)
+				rc.Count("fault_sql_"+pf.L2Kind.String(), 1)
+			}
+		}
+	}
 	nExec := execsFor(rc.Tier, 4, 12)
 	for e := 0; e < nExec; e++ {
 		if rc.SkipExec(e) {
@@ -543,6 +571,7 @@ func runC14Handlers(env *Env, rc *RunCtx) {
 			reqs = append(reqs, mk(h))
 		}
 		plan := NoFaults()
+		plan.ParkSQL = stmts
 		if et.Bool(1, 3) {
 			for range reqs {
 				plan.StartAfter = append(plan.StartAfter, []int{0, 0, 1, 2, 3}[et.Choose(5)])
